@@ -631,6 +631,16 @@ def gen_validate_cases(ctx: Ctx, budget: int):
             if roll < 0.55:
                 keys.append(key)
                 kinds.append("enabled_flag" if cls == "enabled" else "valid_" + cls)
+            elif roll < 0.67:
+                # something that exists but is not a setting: an object, a read-only property, a method
+                parts = key.split(".")
+                if parts[0] == "detector":
+                    k2 = r.choice([".".join(parts[:2]), ".".join(parts[:2] + ["to_dict"]), ".".join(parts[:2] + ["numbytes"])])
+                else:
+                    k2 = r.choice([".".join(parts[:3]), ".".join(parts[:3] + ["name"]), ".".join(parts[:3] + ["arguments"]),
+                                   ".".join(parts[:2])])
+                keys.append(k2)
+                kinds.append("nonsetting")
             else:
                 k2, kind = mutate_key(r, key, pipe)
                 if not ok_str(k2):
@@ -639,7 +649,9 @@ def gen_validate_cases(ctx: Ctx, budget: int):
                 kinds.append(kind)
         if not keys:
             continue
-        c = dict(op="validate", det=det, pipe=pipe, keys=keys, kinds=kinds, step_enabled=[True] * len(keys))
+        # a step that is switched off is not part of the sweep, whatever its key (only enabled steps reach Coq)
+        c = dict(op="validate", det=det, pipe=pipe, keys=keys, kinds=kinds,
+                 step_enabled=[r.random() < 0.8 for _ in keys])
         if len(cases) % 3 == 0:
             # also run the sweep itself (every model is the probe `verif_probes_c08.record`): with a bad key among the
             # steps it must fail before any model executes
@@ -1054,12 +1066,14 @@ def leg_validate(ctx: Ctx, cases, tag="v"):
                                                                      f"{o['ran']['raise']} after {min(o['ran']['calls'], 1)}+ model calls"
                                                                      if o["ran"]["calls"] else o["ran"]["raise"] + " before any model"))
         ctx.dist("validate_outcome", o["validate"] or "accepted")
-        for kd in c["kinds"]:
-            ctx.dist("step_key_kind", kd)
+        for kd, en in zip(c["kinds"], c["step_enabled"]):
+            ctx.dist("step_key_kind", kd if en else "(step disabled) " + kd)
     return pairs
 
 
 def validate_violation(ctx, c, o, clause) -> Violation:
+    c = dict(c, keys=[k for k, en in zip(c["keys"], c["step_enabled"]) if en],
+             kinds=[k for k, en in zip(c["kinds"], c["step_enabled"]) if en], all_keys=c["keys"], all_kinds=c["kinds"])
     only_flag = all(k == "enabled_flag" or k.startswith("valid_") for k in c["kinds"]) and "enabled_flag" in c["kinds"]
     sig = dict(clause=clause, error=o["validate"] or "none")
     if clause == "validate_refused":
@@ -1082,7 +1096,8 @@ def validate_violation(ctx, c, o, clause) -> Violation:
                 if en is False:
                     bad.add("disabled_model")
         sig["offending"] = "+".join(sorted(bad)) or "unclassified"
-    case = {k: c[k] for k in ("op", "det", "pipe", "keys", "kinds", "step_enabled", "run", "mode") if k in c}
+    case = {k: c[k] for k in ("op", "det", "pipe", "step_enabled", "run", "mode") if k in c}
+    case["keys"], case["kinds"] = c["all_keys"], c["all_kinds"]
     if clause == "sweep_ran":
         return Violation(clause=clause, case=case, observed=dict(validate=o["validate"], ran=o.get("ran")),
                          expected="a sweep with a key that is not an existing setting of an enabled model fails before any model executes",
